@@ -46,6 +46,53 @@ func checkShouldCompleteTable(drv *hx.Driver) string {
 			shapeOK = false
 			break
 		}
+		param := fd.Type.Params.List[0].Names[0].Name
+		if sw, isSwitch := fd.Body.List[0].(*ast.SwitchStmt); isSwitch {
+			// switch st { case A, B: return false; default: return true }
+			if id, ok := sw.Tag.(*ast.Ident); !ok || id.Name != param || sw.Init != nil {
+				shapeOK = false
+				break
+			}
+			sawDefault := false
+			for _, cl := range sw.Body.List {
+				cc := cl.(*ast.CaseClause)
+				val := ""
+				if len(cc.Body) == 1 {
+					if ret, ok := cc.Body[0].(*ast.ReturnStmt); ok && len(ret.Results) == 1 {
+						if id, ok := ret.Results[0].(*ast.Ident); ok {
+							val = id.Name
+						}
+					}
+				}
+				if cc.List == nil {
+					sawDefault = true
+					if val != "true" {
+						shapeOK = false
+					}
+					continue
+				}
+				if val != "false" {
+					shapeOK = false
+				}
+				for _, e := range cc.List {
+					sel, ok := e.(*ast.SelectorExpr)
+					if !ok {
+						shapeOK = false
+						continue
+					}
+					v, known := byName[sel.Sel.Name]
+					if !known {
+						shapeOK = false
+						continue
+					}
+					source[v] = true
+				}
+			}
+			if !sawDefault {
+				shapeOK = false
+			}
+			continue
+		}
 		ret, ok := fd.Body.List[0].(*ast.ReturnStmt)
 		if !ok || len(ret.Results) != 1 {
 			shapeOK = false
@@ -87,7 +134,7 @@ func checkShouldCompleteTable(drv *hx.Driver) string {
 		return "transactionShouldComplete not found in " + file
 	}
 	if !shapeOK {
-		return "transactionShouldComplete is no longer a conjunction of `st != NFS4ERR_…` comparisons"
+		return "transactionShouldComplete is neither a conjunction of `st != NFS4ERR_…` comparisons nor a switch returning false for listed codes"
 	}
 	var diff []string
 	check := func(st uint32) {
